@@ -167,13 +167,14 @@ CLAIMED.update({
         technique='Coq model of escape + parser, bounded kernel proof + exhaustive differential'),
     'C20': dict(cat='proof', design='DESIGN.md §0, §7 C20',
         text='Theorems: pretty() terminates on every string (each regenerated token pattern is non-nullable, fallback branch, progress '
-             'lemma); for EVERY string and EVERY offset in it, get_pattern_context reports the line and column of the specification '
+             'lemma) and its output equals its input up to white space, for EVERY string (PrettyFacts.pretty_content, reading the two '
+             'separator patterns REGENERATED from pretty.py); for EVERY string and EVERY offset in it, get_pattern_context reports the line and column of the specification '
              '(LineFacts.gpc_line_col: the matches finditer yields for the REGENERATED line-split pattern are characterised - one per CR LF / CR / '
              'LF, then the empty match at the end - and the loop is followed; no bound). Differential: context function vs model vs '
              'specification incl. caret placement; every SelectorSyntaxError of a mutated multi-line selector, and of a malformed custom '
              'definition, must point inside the text it belongs to and agree with the model parser; DEBUG vs no flag (structure and '
              'selection, with default-namespace maps); pretty() under an alarm vs model output.',
-        note='"reproduces the repr up to white space" and the caret text of the context are checked, not proved.',
+        note='the caret text of the context is checked, not proved; "white space" in the pretty theorem is the \\s class of the patterns, the run-time comparison uses str.split().',
         technique='Coq termination proof + unbounded line/column theorem over the regenerated regex + diagnostics differential'),
 })
 NOT_YET = {}
